@@ -352,6 +352,33 @@ pub fn scenarios(tier: Tier) -> Vec<LinkScenario<fn() -> Box<dyn Probe>>> {
         cfg.script = vec![Send::at(0, 0, 0, 3_000_000)];
         out.push(LinkScenario { cfg, probe: probe_tight as fn() -> Box<dyn Probe> });
     }
+    // G9: scale class — one direction uses its tick budget to the last byte for 60 ticks (720 kB in full slices at
+    // 12 000 B per tick) while the other direction sends a modest reliable stream (500 B per tick on a 20 kB
+    // channel, not gated): acknowledgements are not message payload and keep flowing, so the stream's bytes come
+    // back tick by tick and nobody runs out of channel memory
+    for (dir, faults) in [(0usize, false), (1, false)] {
+        if tier == Tier::Quick && dir == 1 {
+            continue;
+        }
+        let (big, small) = (chans(1_000_000), chans(20_000));
+        let mut cfg = LinkCfg::base(
+            &format!("dir{} saturates 12000 B/tick exactly for 60 ticks, the other direction streams 500 B/tick on 20 kB{}", dir, if faults { ", faults in ticks 10..13" } else { "" }),
+            if dir == 0 { big.clone() } else { small.clone() },
+            if dir == 0 { small } else { big },
+        );
+        cfg.bytes_per_tick = 12_000;
+        cfg.dt_ms = vec![100];
+        cfg.horizon = 0;
+        cfg.tail = 80;
+        cfg.drains = vec![Drain::End];
+        cfg.fates = if faults { vec![Fate::Ok, Fate::Drop, Fate::Dup] } else { vec![Fate::Ok] };
+        let mut script = vec![Send::at(0, dir, 0, 720_000)];
+        for t in 1..=58u32 {
+            script.push(Send::at(t, 1 - dir, 1, 500));
+        }
+        cfg.script = script;
+        out.push(LinkScenario { cfg, probe: probe_tight as fn() -> Box<dyn Probe> });
+    }
     // G4: bandwidth-starved tick budget: unreliable messages are dropped at the flush, their bytes must come back
     for dir in 0..2usize {
         if tier == Tier::Quick && dir == 1 {
